@@ -14,6 +14,7 @@ verus! {
 
 //@keep-cfg statistics
 //@include _shared/handler_prelude.rs
+//@include _shared/copy_iter.rs
 //@include _shared/statistics_items.rs
 opaque!(Object);
 opaque!(Service);
@@ -28,6 +29,11 @@ pub struct SerialMap<T> { _p: core::marker::PhantomData<T> }
 //@item core/src/message/destroy_bus_listener.rs struct DestroyBusListener
 //@item core/src/message/destroy_bus_listener_reply.rs enum DestroyBusListenerResult
 //@item core/src/message/destroy_bus_listener_reply.rs struct DestroyBusListenerReply
+//@item core/src/message/start_bus_listener.rs struct StartBusListener
+//@item core/src/message/start_bus_listener_reply.rs enum StartBusListenerResult
+//@item core/src/message/start_bus_listener_reply.rs struct StartBusListenerReply
+//@item core/src/message/emit_bus_event.rs struct EmitBusEvent
+//@item core/src/message/bus_listener_current_finished.rs struct BusListenerCurrentFinished
 //@item core/src/message/stop_bus_listener.rs struct StopBusListener
 //@item core/src/message/stop_bus_listener_reply.rs enum StopBusListenerResult
 //@item core/src/message/stop_bus_listener_reply.rs struct StopBusListenerReply
@@ -44,6 +50,50 @@ impl BusListenerCookie {
     #[verifier::external_body]
     pub fn new_v4() -> (r: Self) { unimplemented!() }
 }
+impl IntoMessage for StartBusListenerReply { open spec fn min_minor() -> u32 { 0 } open spec fn allowed_for(&self, receiver: &ConnectionState) -> bool { true } }
+// ROUTING (C10): a bus event tagged with a listener cookie, and the end-of-current marker of a listener, go only to the
+// connection that owns that listener ("nothing else carries the tag")
+impl IntoMessage for EmitBusEvent {
+    open spec fn min_minor() -> u32 { 0 }
+    closed spec fn allowed_for(&self, receiver: &ConnectionState) -> bool {
+        self.cookie is Some ==> receiver.bus_listeners@.contains(self.cookie->Some_0)
+    }
+}
+impl IntoMessage for BusListenerCurrentFinished {
+    open spec fn min_minor() -> u32 { 0 }
+    closed spec fn allowed_for(&self, receiver: &ConnectionState) -> bool { receiver.bus_listeners@.contains(self.cookie) }
+}
+
+// the registry types are opaque in this unit; start_bus_listener only reads ids out of them
+opaque_copy_key!(ServiceId);
+//@item core/src/bus_listener.rs enum BusEvent
+impl ObjectId {
+    #[verifier::external_body]
+    pub fn new(uuid: ObjectUuid, cookie: ObjectCookie) -> (r: Self) { unimplemented!() }
+}
+impl ServiceId {
+    #[verifier::external_body]
+    pub fn new(object_id: ObjectId, uuid: ServiceUuid, cookie: ServiceCookie) -> (r: Self) { unimplemented!() }
+}
+impl Object {
+    #[verifier::external_body]
+    pub(crate) fn cookie(&self) -> (r: ObjectCookie) { unimplemented!() }
+}
+impl Service {
+    #[verifier::external_body]
+    pub(crate) fn cookie(&self) -> (r: ServiceCookie) { unimplemented!() }
+    #[verifier::external_body]
+    pub(crate) fn object_cookie(&self) -> (r: ObjectCookie) { unimplemented!() }
+}
+// #[derive(PartialEq)] on BusListenerScope is structural equality. ASSUMED.
+impl PartialEqSpecImpl for BusListenerScope {
+    open spec fn obeys_eq_spec() -> bool { true }
+    open spec fn eq_spec(&self, other: &Self) -> bool { *self == *other }
+}
+impl PartialEq for BusListenerScope {
+    #[verifier::external_body]
+    fn eq(&self, other: &Self) -> (r: bool) { unimplemented!() }
+}
 impl IntoMessage for StopBusListenerReply { open spec fn min_minor() -> u32 { 0 } open spec fn allowed_for(&self, receiver: &ConnectionState) -> bool { true } }
 
 // ---- BusListener: real struct, methods ASSUMED with the contracts verified in unit broker_bus_listener -----------
@@ -55,6 +105,19 @@ impl BusListener {
     //@fn-from broker_bus_listener broker/src/bus_listener.rs BusListener::conn_id
     //@fn-from broker_bus_listener broker/src/bus_listener.rs BusListener::clear_filters
     //@fn-from broker_bus_listener broker/src/bus_listener.rs BusListener::stop
+    //@fn-from broker_bus_listener broker/src/bus_listener.rs BusListener::start
+
+    // The matching predicates and enumerations of a listener (`self.filters.iter().copied().any(..)`, `filter_map` with a
+    // closure: iterator adapters, outside Verus). ASSUMED, no contract: start_bus_listener only uses them to decide which
+    // events to SEND, and sends are not part of the state model.
+    //@fn broker/src/bus_listener.rs BusListener::matches_object nobody
+    //@end
+    //@fn broker/src/bus_listener.rs BusListener::matches_service nobody
+    //@end
+    //@fn broker/src/bus_listener.rs BusListener::specific_objects nobody iter
+    //@end
+    //@fn broker/src/bus_listener.rs BusListener::specific_services nobody iter
+    //@end
 
     // add_filter / remove_filter use `|=` on bool and iterator adapters (outside Verus's subset): contracts ASSUMED.
     //@fn broker/src/bus_listener.rs BusListener::add_filter nobody
@@ -266,6 +329,38 @@ impl Broker {
             assert(self.bus_listeners@.contains_key(cookie));
             assert(self.bus_listeners@.dom() =~= old(self).bus_listeners@.dom().insert(cookie));
         }
+    //@end
+
+    // ---- start_bus_listener -------------------------------------------------------------------------------------------
+    // The only state change is BusListener::start on the requester's own listener; the four enumeration loops (specific /
+    // matching objects, specific / matching services) only send. Every tagged event and the end-of-current marker go to the
+    // connection that owns the listener (precondition of `send`).
+    //@fn broker/src/broker.rs Broker::start_bus_listener attr=verifier::loop_isolation(false)
+        requires
+            old(self).bl_inv(), old(self).bl_owners_connected(),
+        ensures
+            final(self).bl_inv(), final(self).bl_owners_connected(),
+            final(self).bl_same_rest(old(self)),
+            final(self).conns@ == old(self).conns@,
+            final(self).bus_listeners@.dom() == old(self).bus_listeners@.dom(),
+            forall|c: BusListenerCookie| #![trigger final(self).bus_listeners@[c]] c != req.cookie && old(self).bus_listeners@.contains_key(c) ==> final(self).bus_listeners@[c] == old(self).bus_listeners@[c],
+            // only the owning connection can start a listener, and only once
+            !(old(self).conns@.contains_key(*id) && old(self).owns(id, req.cookie) && old(self).bus_listeners@[req.cookie].scope is None)
+                ==> final(self).bus_listeners@ == old(self).bus_listeners@,
+            (old(self).conns@.contains_key(*id) && old(self).owns(id, req.cookie) && old(self).bus_listeners@[req.cookie].scope is None) ==> {
+                &&& final(self).bus_listeners@[req.cookie].scope == Some(req.scope)
+                &&& final(self).bus_listeners@[req.cookie].filters == old(self).bus_listeners@[req.cookie].filters
+                &&& final(self).bus_listeners@[req.cookie].conn_id == old(self).bus_listeners@[req.cookie].conn_id
+            },
+            final(self).stat_same(old(self)),
+    //@loop 0 it0
+        invariant self.conns@.contains_key(*id), conn == self.conns@[*id], self.conns@[*id].bus_listeners@.contains(req.cookie),
+    //@loop 1 it1
+        invariant self.conns@.contains_key(*id), conn == self.conns@[*id], self.conns@[*id].bus_listeners@.contains(req.cookie),
+    //@loop 2 it2
+        invariant self.conns@.contains_key(*id), conn == self.conns@[*id], self.conns@[*id].bus_listeners@.contains(req.cookie),
+    //@loop 3 it3
+        invariant self.conns@.contains_key(*id), conn == self.conns@[*id], self.conns@[*id].bus_listeners@.contains(req.cookie),
     //@end
 }
 
